@@ -5,9 +5,13 @@ Exhaustive enumeration (driver E1) of the property's own domain:
     in {None, -B..B}, step in {None, 1..S}, len(xs) in 0..L, in the 1-, 2- and 3-argument forms;
   * steps 0, negative and fractional raise LenaValueError at construction;
   * Slice.fill_into fills exactly the selected indices and raises LenaStopFill only at an index from
-    which no later index is selected (checked against every later index up to a horizon);
+    which no later index is selected (checked against every later index up to a horizon), under both
+    drivers: the one that stops at the first LenaStopFill and the one that catches it per value and offers
+    the whole flow (mc/ref/c17_drivers.py);
   * Reverse / Chain / CountFrom / RunningChunkBy against reversed / itertools.chain / itertools.count /
-    sliding windows.
+    sliding windows;
+  * every element also while it is queried (repr, ==, !=, in) before, between and in the middle of its
+    uses: the results are those of the unqueried Python reference.
 """
 import collections
 import itertools
@@ -16,6 +20,7 @@ import lena.core
 import lena.flow
 
 from mc.core import Result, result_violations
+from mc.ref.c17_drivers import drive_fill_into, observe
 
 ID = "C17"
 LEVEL = "exploration"
@@ -23,12 +28,20 @@ DESIGN_REF = "DESIGN.md section 5, C17"
 RULE = ("every (start, stop, step, flow length) of the stated domain is executed once on the real "
         "Slice and compared with list slicing; a case is non-trivial when the reference selects a "
         "non-empty proper subsequence of a non-empty flow (or, for the other iterators, when the "
-        "expected output is non-empty); cases are distinct by construction of the enumeration")
+        "expected output is non-empty; for the fill_into driver that offers every value, when values were "
+        "offered after the first LenaStopFill); cases are distinct by construction of the enumeration")
 ASSUMPTIONS = [
     "flows are finite lists of distinct (int, dict) pairs; identity (is) of yielded values is compared",
     "steps are None or integers >= 1 for the equality law; 0, negative and fractional (non-integral) "
     "steps must raise LenaValueError at construction; integral floats such as 2.0 are outside the alphabet",
     "fill_into is checked for non-negative arguments only (negative ones are documented as unsupported)",
+    "a caller of fill_into reacts to LenaStopFill in one of two ways: it stops offering values, or it catches "
+    "the exception for the offered value and offers the next one; after a LenaStopFill only 'nothing more is "
+    "filled' is demanded, not that every later offer raises again",
+    "the iterables of a Chain are lists, tuples, list iterators, generators or map objects",
+    "queries are repr, ==, != (both operand orders), in and list.count against the element itself, equally "
+    "and differently built elements of its class, elements of other classes and None; their answers and "
+    "exceptions are not judged, only what the element produces afterwards",
 ]
 NONTRIVIAL_FLOOR = {"quick": 50000, "thorough": 500000}
 
@@ -42,14 +55,18 @@ def _dom(tier):
 def describe(tier):
     d = _dom(tier)
     return ("start, stop in {None, -%(B)d..%(B)d}; step in {None, 1..%(S)d}; flows of length 0..%(L)d; "
-            "fill_into horizon %(H)d values beyond stop; chunk sizes 1..5" % d)
+            "fill_into horizon %(H)d values beyond stop, two drivers (stop at the first LenaStopFill / every "
+            "value offered), the second also with the element queried before every offer over the flow of "
+            "length %(L)d; Slice.run queried after every value for flows of length %(LQ)d and %(L)d; Chain of "
+            "0..3 iterables of lengths 0..2 of 5 kinds, queried at 3 points and at every consumer position "
+            "of the laziness law; chunk sizes 1..5" % dict(d, LQ=d["LF"] // 2))
 
 
 def shards(tier):
     d = _dom(tier)
     out = [{"kind": "slice", "start": s} for s in [None] + list(range(-d["B"], d["B"] + 1))]
     out.append({"kind": "badstep"})
-    out.append({"kind": "fill_into"})
+    out.extend({"kind": "fill_into", "start": s} for s in [None] + list(range(0, d["B"] + 1)))
     out.append({"kind": "others"})
     return out
 
@@ -64,6 +81,12 @@ class _Collect(object):
 
 def _flow(n):
     return [(i, {"i": i}) for i in range(n)]
+
+
+def _peers(el, *more):
+    """What an element is compared with by the observers: itself, the given equally / differently built
+    objects, an element of another class, a non-element."""
+    return [el] + list(more) + [lena.flow.Reverse(), lena.flow.Slice(0, 1), None]
 
 
 def _same(a, b):
@@ -189,6 +212,41 @@ def check_slice_run_hinted(res, args, n, hint):
     return case
 
 
+def check_slice_run_queried(res, args, n):
+    """Slice.run while the element is queried (repr, ==, !=, in) before run(), between run() and the first
+    value, after every value and between two runs: still list slicing."""
+    xs, ys = _flow(n), _flow(n + 1)
+    expected = xs[slice(*args)]
+    case = {"law": "slice-run-queried", "args": list(args), "n": n}
+    try:
+        el = lena.flow.Slice(*args)
+        peers = _peers(el, lena.flow.Slice(*args), lena.flow.Slice(*[None if a is None else a + 1 for a in args]))
+        observe(el, peers)
+        it = iter(el.run(iter(xs)))
+        got = []
+        while True:
+            observe(el, peers)
+            try:
+                got.append(next(it))
+            except StopIteration:
+                break
+        ok, observed = _same(got, expected), [v[0] for v in got]
+        if ok:
+            observe(el, peers)
+            got2 = list(el.run(iter(ys)))
+            if not _same(got2, ys[slice(*args)]):
+                ok, observed = False, {"second_run_over_%d_values" % (n + 1): [v[0] for v in got2]}
+    except Exception as e:
+        ok, observed = False, "raised " + type(e).__name__
+    s = slice(*args)
+    res.case(nontrivial=0 < len(expected) < n, outcome=("queried", len(expected)))
+    if not ok:
+        res.violation(case, observed, [v[0] for v in expected],
+                      {"law": "slice-run", "start": _sign(s.start), "stop": _sign(s.stop),
+                       "step_gt_1": bool(s.step and s.step > 1), "queried": True})
+    return case
+
+
 LONG = 300      # beyond the positions whose int objects CPython shares (-5..256)
 
 
@@ -241,7 +299,7 @@ def check_bad_step(res, args):
     return case
 
 
-def check_fill_into(res, args, n, horizon):
+def check_fill_into(res, args, n, horizon, queried_too=True):
     """Feed n values one by one. Index j must be filled iff j is selected; LenaStopFill at index j
     is allowed only if no index >= j (up to n + horizon) is selected, and after it nothing more is fed."""
     total = n + horizon
@@ -310,12 +368,46 @@ def check_fill_into(res, args, n, horizon):
                     break
         except Exception as e:
             problems.append("alternating target elements: raised " + type(e).__name__)
+    if not problems and n >= 1:
+        # the other honest driver: it catches LenaStopFill for the value it offered and goes on with the next
+        # value, so the whole flow is offered (mc/ref/c17_drivers.py). What is filled is still xs[slice], and
+        # a stop still comes only where no later index is selected. Once without and once with queries
+        # (repr, ==, !=, in) put to the element before every offer (fill_into cannot know how long the flow
+        # is, so the queried pass over the longest flow of the tier covers the shorter ones: queried_too).
+        want = xs[slice(*args)]
+        for queried in ((False, True) if queried_too else (False,)):
+            what = "every value offered (LenaStopFill caught per value)" + (", element queried" if queried else "")
+            try:
+                el4 = lena.flow.Slice(*args)
+                sink4 = _Collect()
+                between = None
+                if queried:
+                    peers = _peers(el4, lena.flow.Slice(*args))
+                    between = lambda: observe(el4, peers)
+                stops = drive_fill_into(el4, lambda j: sink4, xs, "offer-all", between)
+                if not _same(sink4.got, want):
+                    problems.append("%s: filled %r" % (what, [v[0] for v in sink4.got]))
+                elif stops and any(j in selected for j in range(stops[0], total)):
+                    problems.append("%s: LenaStopFill at index %d although a later index is selected"
+                                    % (what, stops[0]))
+                res.case(nontrivial=bool(stops) and stops[0] < n - 1,
+                         outcome=("offer-all", queried, tuple(v[0] for v in sink4.got), len(stops)))
+                if len(stops) > 1:
+                    res.count("fill_into_offered_after_stop")
+            except Exception as e:
+                problems.append("%s: raised %s" % (what, type(e).__name__))
+            if problems:
+                break
     if problems:
         s = slice(*args)
-        res.violation(case, problems, {"filled": [v[0] for v in expected]},
-                      {"law": "slice-fill-into", "step_gt_1": bool(s.step and s.step > 1),
-                       "alternating_targets": any("alternating" in p for p in problems),
-                       "early_stop": any("LenaStopFill" in p for p in problems)})
+        cause = {"law": "slice-fill-into", "step_gt_1": bool(s.step and s.step > 1),
+                 "alternating_targets": any("alternating" in p for p in problems),
+                 "early_stop": any("LenaStopFill at" in p for p in problems)}
+        if any("every value offered" in p for p in problems):
+            cause["driver"] = "offer-all"
+        if any("element queried" in p for p in problems):
+            cause["queried"] = True
+        res.violation(case, problems, {"filled": [v[0] for v in expected]}, cause)
     return case
 
 
@@ -326,14 +418,23 @@ def _windows(xs, k):
 def check_others(res, tier):
     L = _dom(tier)["L"]
     # Reverse
-    for n in range(L + 1):
+    for n, queried in itertools.product(range(L + 1), (False, True)):
         xs = _flow(n)
-        case = {"law": "reverse", "n": n}
+        case = {"law": "reverse", "n": n, "queried": queried}
+        # queried: repr / == / != / in are put to the element before, in the middle of and between its runs
+        look = (lambda el: observe(el, _peers(el, lena.flow.Reverse()))) if queried else (lambda el: 0)
         try:
             rev = lena.flow.Reverse()
-            got = list(rev.run(iter(xs)))
+            look(rev)
+            g = rev.run(iter(xs))
+            look(rev)
+            got = list(itertools.islice(g, 1))
+            look(rev)
+            got.extend(g)
             ok = _same(got, list(reversed(xs)))
+            observed = [v[0] for v in got]
             if ok:      # the same object over a second flow
+                look(rev)
                 ys = _flow(n + 1)
                 ok = _same(list(rev.run(iter(ys))), list(reversed(ys)))
             if ok and n >= 2:
@@ -341,12 +442,12 @@ def check_others(res, tier):
                 rev = lena.flow.Reverse()
                 g = rev.run(iter(xs))
                 next(g)
+                look(rev)
                 ys = _flow(n + 1)
                 ok = _same(list(rev.run(iter(ys))), list(reversed(ys)))
+                del g
                 if not ok:
                     observed = "differs after an abandoned earlier run of the same object"
-                del g
-            observed = [v[0] for v in got]
         except Exception as e:
             ok, observed = False, "raised " + type(e).__name__
         if ok and n:
@@ -357,25 +458,51 @@ def check_others(res, tier):
         res.case(nontrivial=n > 1, outcome=("rev", n))
         res.sample(case, 1)
         if not ok:
-            res.violation(case, observed, list(range(n - 1, -1, -1)), {"law": "reverse"})
-    # Chain: all tuples of 0..3 iterables of lengths 0..2 (lists and one-shot iterators)
+            res.violation(case, observed, list(range(n - 1, -1, -1)),
+                          dict({"law": "reverse"}, **({"queried": True} if queried else {})))
+    # Chain: all tuples of 0..3 iterables of lengths 0..2 (of every kind of iterable: lists, tuples and the
+    # one-shot ones: list iterators, generators, map objects), each used plainly
+    # and after / while the Chain object is queried (repr, ==, !=, in; against itself, a Chain of the same
+    # objects, a Chain of equal lists, Chains of another length, other objects): before it is called,
+    # between the call and the first value, after the first value
     lens = [0, 1, 2]
+
+    def _gen(l):
+        for v in l:
+            yield v
+    kinds = [("list", lambda l: l), ("tuple", tuple), ("iter", iter), ("generator", _gen),
+             ("map", lambda l: map(lambda v: v, l))]
     for k in range(0, 4):
         for ls in itertools.product(lens, repeat=k):
-            for as_iter in (False, True):
+            for (kind, mk), queried_at in itertools.product(kinds, (None, "new", "called", "started")):
                 lists = [[("c", a, i) for i in range(l)] for a, l in enumerate(ls)]
-                expected = list(itertools.chain(*lists))
-                args = [iter(l) for l in lists] if as_iter else lists
-                case = {"law": "chain", "lengths": list(ls), "iterators": as_iter}
+                expected = list(itertools.chain(*[mk(l) for l in lists]))
+                args = [mk(l) for l in lists]
+                case = {"law": "chain", "lengths": list(ls), "iterables": kind, "queried": queried_at}
                 try:
-                    got = list(lena.flow.Chain(*args)())
+                    ch = lena.flow.Chain(*args)
+                    peers = _peers(ch, lena.flow.Chain(*args), lena.flow.Chain(*[list(l) for l in lists]),
+                                   lena.flow.Chain(*[[0]] * k), lena.flow.Chain(*[[]] * (k + 1)),
+                                   lena.flow.Chain())
+                    if queried_at == "new":
+                        observe(ch, peers)
+                    it = ch()
+                    if queried_at == "called":
+                        observe(ch, peers)
+                    got = list(itertools.islice(it, 1))
+                    if queried_at == "started":
+                        observe(ch, peers)
+                    got.extend(it)
                     ok = _same(got, expected)
                     observed = repr(got)
                 except Exception as e:
                     ok, observed = False, "raised " + type(e).__name__
                 res.case(nontrivial=len(expected) > 0, outcome=("chain", ls))
                 if not ok:
-                    res.violation(case, observed, repr(expected), {"law": "chain"})
+                    cause = {"law": "chain"}
+                    if queried_at:
+                        cause["queried"] = True
+                    res.violation(case, observed, repr(expected), cause)
     # Chain is as lazy as itertools.chain: iter() of an iterable and each of its values are demanded in
     # the same order relative to what the consumer has taken (every prefix length of every tuple)
     class _Traced(object):
@@ -392,12 +519,20 @@ def check_others(res, tier):
                 yield ("c", self.name, i)
             self.log.append(("end", self.name))
 
-    def _trace(make_chain, ls, take):
+    def _trace(make_chain, ls, take, query_after=None):
         log = []
         try:
-            it = iter(make_chain([_Traced(a, l, log) for a, l in enumerate(ls)]))
+            obj, it = make_chain([_Traced(a, l, log) for a, l in enumerate(ls)])
+            it = iter(it)
             log.append(("chained",))
-            for _ in range(take):
+            for i in range(take + 1):
+                if i == query_after:
+                    unseen = []
+                    observe(obj, _peers(obj, lena.flow.Chain(*[[("c", a, j) for j in range(l)]
+                                                             for a, l in enumerate(ls)]),
+                                        lena.flow.Chain(*[_Traced(a, l, unseen) for a, l in enumerate(ls)])))
+                if i == take:
+                    break
                 try:
                     v = next(it)
                 except StopIteration:
@@ -410,27 +545,48 @@ def check_others(res, tier):
     for k in range(0, 4):
         for ls in itertools.product(lens, repeat=k):
             for take in range(0, sum(ls) + 2):
-                case = {"law": "chain-lazy", "lengths": list(ls), "take": take}
-                expected = _trace(lambda a: itertools.chain(*a), ls, take)
-                got = _trace(lambda a: lena.flow.Chain(*a)(), ls, take)
-                res.case(nontrivial=k >= 2 and take >= 1, outcome=("chain-lazy", ls, take))
-                if got != expected:
-                    res.violation(case, got, expected, {"law": "chain-lazy"})
+                expected = _trace(lambda a: (None, itertools.chain(*a)), ls, take)
+
+                def _lena_chain(a):
+                    ch = lena.flow.Chain(*a)
+                    return ch, ch()
+                # query_after = i: the Chain object is queried when the consumer has taken i values (the
+                # iterables must not notice: the trace is that of itertools.chain, which nobody queried)
+                for query_after in [None] + list(range(take + 1)):
+                    case = {"law": "chain-lazy", "lengths": list(ls), "take": take, "query_after": query_after}
+                    got = _trace(_lena_chain, ls, take, query_after)
+                    res.case(nontrivial=k >= 2 and take >= 1, outcome=("chain-lazy", ls, take))
+                    if got != expected:
+                        cause = {"law": "chain-lazy"}
+                        if query_after is not None:
+                            cause["queried"] = True
+                        res.violation(case, got, expected, cause)
     # CountFrom
     for start in (-2, 0, 1, 2.5):
         for step in (1, 2, -1, 0.5, 0):
-            for m in (0, 1, 5):
-                case = {"law": "countfrom", "start": start, "step": step, "take": m}
+            for m, queried in itertools.product((0, 1, 5), (False, True)):
+                case = {"law": "countfrom", "start": start, "step": step, "take": m, "queried": queried}
                 expected = list(itertools.islice(itertools.count(start, step), m))
                 try:
-                    got = list(itertools.islice(lena.flow.CountFrom(start, step)(), m))
+                    cf = lena.flow.CountFrom(start, step)
+                    # queried: repr / == / != / in before the call, before the first and before later values
+                    look = ((lambda: observe(cf, _peers(cf, lena.flow.CountFrom(start, step),
+                                                        lena.flow.CountFrom(start + 1, step))))
+                            if queried else (lambda: 0))
+                    look()
+                    it = cf()
+                    look()
+                    got = list(itertools.islice(it, min(m, 1)))
+                    look()
+                    got.extend(itertools.islice(it, m - len(got)))
                     ok = got == expected and [type(a) for a in got] == [type(a) for a in expected]
                     observed = got
                 except Exception as e:
                     ok, observed = False, "raised " + type(e).__name__
                 res.case(nontrivial=m > 0, outcome=("count", start, step, m))
                 if not ok:
-                    res.violation(case, observed, expected, {"law": "countfrom"})
+                    res.violation(case, observed, expected,
+                                  dict({"law": "countfrom"}, **({"queried": True} if queried else {})))
     # one CountFrom object called twice, the first flow advanced before / while the second is read
     for start, step in ((0, 1), (3, 2)):
         for m1 in (0, 2):
@@ -466,14 +622,23 @@ def check_others(res, tier):
                       ("namedtuple", dict(container=nt)),
                       ("lambda_args", dict(container=lambda *a: list(a)))]
         for cname, kw in containers:
-            for n in range(0, min(L, 9) + 1):
+            for n, queried in itertools.product(range(0, min(L, 9) + 1), (False, True)):
                 xs = _flow(n)
                 wins = _windows(xs, k)
-                case = {"law": "running-chunk-by", "size": k, "container": cname, "n": n}
+                case = {"law": "running-chunk-by", "size": k, "container": cname, "n": n, "queried": queried}
                 try:
                     rcb = lena.flow.RunningChunkBy(k, **kw)
+                    # queried: repr / == / != / in before, between and in the middle of the runs
+                    look = ((lambda: observe(rcb, _peers(rcb, lena.flow.RunningChunkBy(k, **kw),
+                                                         lena.flow.RunningChunkBy(k + 1))))
+                            if queried else (lambda: 0))
+                    look()
                     list(rcb.run(iter(_flow(n // 2))))      # an earlier run of the same object
-                    got = list(rcb.run(iter(xs)))
+                    look()
+                    g = rcb.run(iter(xs))
+                    got = list(itertools.islice(g, 1))
+                    look()
+                    got.extend(g)
                     ok = len(got) == len(wins) and all(
                         len(g) == k and all(a is b for a, b in zip(g, w)) for g, w in zip(got, wins))
                     if ok and cname == "namedtuple":
@@ -491,7 +656,8 @@ def check_others(res, tier):
                 res.case(nontrivial=len(wins) > 1, outcome=("rcb", k, n))
                 if not ok:
                     res.violation(case, observed, repr([[v[0] for v in w] for w in wins]),
-                                  {"law": "running-chunk-by", "container": cname})
+                                  dict({"law": "running-chunk-by", "container": cname},
+                                       **({"queried": True} if queried else {})))
 
 
 def run_shard(p, tier):
@@ -512,6 +678,8 @@ def run_shard(p, tier):
                             for hint in sorted(set([0, n // 2, n - 1, n + 2])):
                                 if hint != n and hint >= 0:
                                     check_slice_run_hinted(res, args, n, hint)
+                        if n in (d["LF"] // 2, d["L"]):
+                            check_slice_run_queried(res, args, n)
                 # one long flow: this stop, and for stop None also far stops
                 for big in ((None, 260, -260, 290, -3) if stop is None else (stop,)):
                     check_long(res, (start, big, step))
@@ -526,12 +694,12 @@ def run_shard(p, tier):
                 res.sample(case, 2)
     elif p["kind"] == "fill_into":
         nn = [None] + list(range(0, d["B"] + 1))
-        for start in nn:
+        for start in [p["start"]]:
             for stop in nn:
                 for step in steps:
                     for args in _forms(start, stop, step):
                         for n in range(d["L"] + 1):
-                            case = check_fill_into(res, args, n, d["H"] + d["B"])
+                            case = check_fill_into(res, args, n, d["H"] + d["B"], queried_too=(n == d["L"]))
                     res.sample(case, 2)
     elif p["kind"] == "others":
         check_others(res, tier)
@@ -545,6 +713,8 @@ def replay(case):
         check_slice_run(res, tuple(case["args"]), case["n"], case.get("falsy_shift"))
     elif law == "slice-run-hinted":
         check_slice_run_hinted(res, tuple(case["args"]), case["n"], case["hint"])
+    elif law == "slice-run-queried":
+        check_slice_run_queried(res, tuple(case["args"]), case["n"])
     elif law == "slice-long":
         check_long(res, tuple(case["args"]))
     elif law == "slice-badstep":
@@ -560,8 +730,11 @@ def replay(case):
 LEVEL_TEXT = ("bounded exhaustive exploration: the property's whole stated domain (start, stop in "
               "{None,-12..12}, step in {None,1..6}, flows of length 0..22; thorough: -26..26, 1..10, 0..52) is enumerated "
               "and every case executed on the real Slice / Reverse / Chain / CountFrom / RunningChunkBy and "
-              "compared with Python's own slicing, reversed, itertools.chain/count and sliding windows")
+              "compared with Python's own slicing, reversed, itertools.chain/count and sliding windows; two "
+              "fill_into drivers; 5 kinds of Chain iterables; every element with and without interleaved queries")
 LEVEL_NOTE = ("holds for the enumerated domain only; identity of yielded objects is compared; "
               "integral float steps are outside the alphabet; every Slice / Reverse / RunningChunkBy object is also "
-              "run over a second flow and every CountFrom called twice with both flows alive")
+              "run over a second flow and every CountFrom called twice with both flows alive; fill_into is driven "
+              "both by a caller that stops at the first LenaStopFill and by one that offers every value; every "
+              "element is also used while it is queried (repr, ==, !=, in), the answers of the queries are not judged")
 TECHNIQUE = "exhaustive enumeration of the stated input domain on the real code against a list-slicing reference"
